@@ -36,19 +36,19 @@ Print Assumptions C08_args.
 Theorem C08_unauthorized : forall U fuel srv inv t c h e,
   tok U inv = Some t -> t_caps t = [c] -> find_handler (r_can c) (s_service srv) = Some h ->
   fst (access U (s_ctx srv) fuel (h_desc h) inv) = AErr e ->
-  run U fuel srv inv = Some (mkRcpt (d_link inv) (s_id srv) (RErr e_unauthorized), []).
+  run U fuel srv inv = Some (mkRcpt (d_link inv) (s_id srv) (RErr e_unauthorized) no_fx, []).
 Proof. exact run_unauthorized. Qed.
 Print Assumptions C08_unauthorized.
 
 Theorem C08_cap_count : forall U fuel srv inv t,
   tok U inv = Some t -> length (t_caps t) <> 1%nat ->
-  run U fuel srv inv = Some (mkRcpt (d_link inv) (s_id srv) (RErr e_capability), []).
+  run U fuel srv inv = Some (mkRcpt (d_link inv) (s_id srv) (RErr e_capability) no_fx, []).
 Proof. exact run_cap_count. Qed.
 Print Assumptions C08_cap_count.
 
 Theorem C08_not_found : forall U fuel srv inv t c,
   tok U inv = Some t -> t_caps t = [c] -> find_handler (r_can c) (s_service srv) = None ->
-  run U fuel srv inv = Some (mkRcpt (d_link inv) (s_id srv) (RErr e_not_found), []).
+  run U fuel srv inv = Some (mkRcpt (d_link inv) (s_id srv) (RErr e_not_found) no_fx, []).
 Proof. exact run_not_found. Qed.
 Print Assumptions C08_not_found.
 
@@ -85,6 +85,60 @@ Theorem C08_request_calls_have_valid_chains : forall U fuel srv,
     P U (s_ctx srv) fuel (h_desc h) [mkDlg l vis] a.
 Proof. exact request_calls_have_valid_chains. Qed.
 Print Assumptions C08_request_calls_have_valid_chains.
+
+(* ------------------------------------------------------------------ *)
+(* "... and its result is what the receipt carries": the EFFECTS (fork links in order, join). *)
+From Coq Require Import Permutation.
+
+(* one invocation: authorized, and its handler returned (a value, fx) for the capability it was
+   called with — the receipt Run issues is the ok receipt carrying exactly fx, and that handler
+   call is the only one *)
+Theorem C08_run_receipt_effects : forall U fuel srv inv rc calls t c h a fx,
+  run U fuel srv inv = Some (rc, calls) ->
+  tok U inv = Some t -> t_caps t = [c] -> find_handler (r_can c) (s_service srv) = Some h ->
+  fst (access U (s_ctx srv) fuel (h_desc h) inv) = AOk a ->
+  h_result h (node_cap a) = HOk fx ->
+  rc_out rc = ROk /\ rc_fx rc = fx /\ calls = [(h_can h, node_cap a)].
+Proof. exact run_receipt_effects. Qed.
+Print Assumptions C08_run_receipt_effects.
+
+(* a whole request, under EVERY order sigma in which the goroutines append their receipts: for
+   every invocation of the execute list that is authorized and whose handler returned (ok, fx),
+   the receipt filed under that invocation in the report has rc_fx = fx (same forks, same order,
+   same join), is ok, and names that invocation *)
+Theorem C08_receipt_effects : forall U fuel srv vis exec sigma rep calls,
+  (forall rs, Permutation rs (sigma rs)) ->
+  execute_sched U fuel srv vis exec sigma = ExecOk rep calls ->
+  forall l t c h a fx, In l exec ->
+    tok U (mkDlg l vis) = Some t -> t_caps t = [c] ->
+    find_handler (r_can c) (s_service srv) = Some h ->
+    fst (access U (s_ctx srv) fuel (h_desc h) (mkDlg l vis)) = AOk a ->
+    h_result h (node_cap a) = HOk fx ->
+    exists r, rget l rep = Some r /\ rc_ran r = l /\ rc_out r = ROk /\ rc_fx r = fx.
+Proof. exact execute_receipt_effects. Qed.
+Print Assumptions C08_receipt_effects.
+
+(* a receipt of the report whose class is not ok (Unauthorized, InvocationCapabilityError,
+   HandlerNotFoundError, HandlerExecutionError) has empty effects *)
+Theorem C08_no_effects_without_success : forall U fuel srv vis exec sigma rep calls,
+  (forall rs, Permutation rs (sigma rs)) ->
+  execute_sched U fuel srv vis exec sigma = ExecOk rep calls ->
+  forall l r, rget l rep = Some r -> rc_out r <> ROk -> rc_fx r = no_fx.
+Proof. exact execute_no_effects_without_success. Qed.
+Print Assumptions C08_no_effects_without_success.
+
+(* ... and conversely nothing else ever appears: non-empty effects of a receipt of the report are
+   the effects the handler of that invocation's ability returned, for an authorized invocation *)
+Theorem C08_effects_only_from_handler : forall U fuel srv vis exec sigma rep calls,
+  (forall rs, Permutation rs (sigma rs)) ->
+  execute_sched U fuel srv vis exec sigma = ExecOk rep calls ->
+  forall l r, rget l rep = Some r -> rc_fx r <> no_fx ->
+  exists h a t c, tok U (mkDlg l vis) = Some t /\ t_caps t = [c] /\
+    find_handler (r_can c) (s_service srv) = Some h /\
+    fst (access U (s_ctx srv) fuel (h_desc h) (mkDlg l vis)) = AOk a /\
+    rc_out r = ROk /\ h_result h (node_cap a) = HOk (rc_fx r).
+Proof. exact execute_effects_from_handler. Qed.
+Print Assumptions C08_effects_only_from_handler.
 
 (* ------------------------------------------------------------------ *)
 (* From the request BODY (ServerBytes.v). *)
